@@ -33,7 +33,7 @@ OPEN = {
 	'C12': 'Degenerate references ("?", "#", "//", "s:") are outside the quantifier.',
 	'C13': 'The unguarded statement is false of the code (F1); `unquote_quote_fixed` proves it for the `%02X` variant, `c13_witness` exhibits the failure.',
 	'C14': 'zlib itself is a parameter. JSON and message/http: oracle on the real code.',
-	'C15': 'Partial by nature: time zone, DST and locale are runtime environment. The model has no such input (that is the claim); the correspondence runs the real code in child processes under 6 zones × the installed locales and requires the one model answer. RFC 850 / asctime round trips: correspondence + example, no general theorem.',
+	'C15': 'Partial by nature: time zone, DST and locale are runtime environment. The model has no such input (that is the claim); the correspondence runs the real code in child processes under 6 zones × the installed locales and requires the one model answer. The asctime and RFC 850 forms are theorems as well (`asctime_roundtrip`, `rfc850_roundtrip` for the years 1970-2068 a two-digit year can name).',
 	'C16': '',
 	'C17': 'The parameter list of the field round-trips as a theorem (`params_roundtrip`); the dictionary lookups after it are tied by correspondence. Values with comma, quote, backslash: F20c.',
 	'C18': '',
